@@ -159,7 +159,7 @@ func operandMatrix(rt *rapid.T, h *harness.H) *caseC07 {
 		p.Decls = append(p.Decls, &ast.Decl{Kind: ast.DFun, Name: name, Ty: ann(ret), Params: params, Body: body})
 	}
 	pa := func(n string, t *ast.Ty) ast.Param { return ast.Param{Name: n, Ty: ann(t)} }
-	shape := d.Pick(8, "axiom")
+	shape := d.Pick(9, "axiom")
 	switch shape {
 	case 0: // payload of a send
 		fun("f", ast.Tensor(m, B, one), &ast.Term{Kind: ast.TSend, X: ast.SelfNm, Y: ast.N("a"), Z: ast.N("u")}, pa("a", A), pa("u", one))
@@ -176,8 +176,17 @@ func operandMatrix(rt *rapid.T, h *harness.H) *caseC07 {
 		fun("f", B, &ast.Term{Kind: ast.TCall, Fn: "g", Args: []ast.Nm{ast.N("a")}}, pa("a", A))
 	case 6: // annotation of a cut whose body is a call
 		fun("g", A, &ast.Term{Kind: ast.TFwd, X: ast.SelfNm, Y: ast.N("x")}, pa("x", A))
-		fun("f", B, &ast.Term{Kind: ast.TNew, X: ast.N("y"), Ann: ann(B), Body: &ast.Term{Kind: ast.TCall, Fn: "g", Args: []ast.Nm{ast.N("a")}},
+		ret := B
+		if d.Bool("retA") {
+			ret = A // everything but the annotation agrees with the type g really provides
+		}
+		fun("f", ret, &ast.Term{Kind: ast.TNew, X: ast.N("y"), Ann: ann(B), Body: &ast.Term{Kind: ast.TCall, Fn: "g", Args: []ast.Nm{ast.N("a")}},
 			K: &ast.Term{Kind: ast.TFwd, X: ast.SelfNm, Y: ast.N("y")}}, pa("a", A))
+	case 8: // annotation of a call-bodied cut that re-uses the name of its argument: a : B <- new g(a)
+		fun("g", A, &ast.Term{Kind: ast.TFwd, X: ast.SelfNm, Y: ast.N("x")}, pa("x", A))
+		// (everything else agrees with the type g really provides, so only the annotation can object)
+		fun("f", A, &ast.Term{Kind: ast.TNew, X: ast.N("a"), Ann: ann(B), Body: &ast.Term{Kind: ast.TCall, Fn: "g", Args: []ast.Nm{ast.N("a")}},
+			K: &ast.Term{Kind: ast.TFwd, X: ast.SelfNm, Y: ast.N("a")}}, pa("a", A))
 	default: // a client-side select whose continuation is annotated: x : B <- new a.l<self>
 		fun("f", B, &ast.Term{Kind: ast.TNew, X: ast.N("y"), Ann: ann(B), Body: &ast.Term{Kind: ast.TSel, X: ast.N("a"), Label: "l", Y: ast.SelfNm},
 			K: &ast.Term{Kind: ast.TFwd, X: ast.SelfNm, Y: ast.N("y")}}, pa("a", ast.With(m, ast.Br{L: "l", T: A})))
